@@ -58,8 +58,14 @@ def generate(rng, tier):
         elif k < 0.65:
             s = rng.choice(list(state.values()))
             s2 = dict(s)
-            ch = rng.choice(["port", "props", "addrs", "server"])
-            if ch == "port":
+            ch = rng.choice(["port", "props", "addrs", "server", "type"])
+            if ch == "type":
+                # the same instance moves between its base type and a subtype-qualified type
+                if "._sub." in s["type"]:
+                    s2["type"] = s["type"].split("._sub.", 1)[1]
+                else:
+                    s2["type"] = "_printer._sub." + s["type"]
+            elif ch == "port":
                 s2["port"] = s["port"] + 1
             elif ch == "props":
                 s2["props"] = {"v": str(rng.randrange(100))}
@@ -110,6 +116,9 @@ def _query(rng, t, svcs, live, qid):
         k = rng.random()
         if k < 0.25:
             q = [s["type"], wire.T_PTR]
+            cand = [rec.ptr]
+        elif k < 0.3 and rng.random() < 0.5:
+            q = ["_printer._sub." + s["type"].split("._sub.")[-1], wire.T_PTR]
             cand = [rec.ptr]
         elif k < 0.35:
             q = [ENUM, wire.T_PTR]
